@@ -550,4 +550,121 @@ Section Opt.
       - eapply incl_tran; [apply X1|]. eapply incl_tran; [apply X2|exact R3].
     Qed.
   End OptWhole.
+
+  (** *** optimized = brute force *)
+  Hypothesis IndexOK : forall e, in_index e <-> In e (all_edges x).
+
+  Lemma EI_init P st : EI (s_results st) (s_limit st) P st.
+  Proof.
+    split; [|split; [|split]].
+    - intros r Hr. left. exact Hr.
+    - apply (le_refl _ _ OK).
+    - intros _. reflexivity.
+    - intros _ E. rewrite E. split; [intros ? []|split; [reflexivity|intros N; contradiction]].
+  Qed.
+
+  Lemma EI_weaken R0 L0 (P Q : eid -> Prop) st : (forall e, P e -> Q e) -> EI R0 L0 P st -> EI R0 L0 Q st.
+  Proof.
+    intros PQ (S & R). split; [|exact R]. intros r Hr. destruct (S r Hr) as [H|(e & Pe & E)]; [left; exact H|].
+    right. exists e. split; [apply PQ; exact Pe|exact E].
+  Qed.
+
+  (** what a finished search has collected when the limit never moves (MaxResults <> 1) *)
+  Lemma final_set R0 L0 st' : o_max_results o <> 1 -> EI R0 L0 in_index st' -> incl R0 (s_results st') ->
+    (forall e, in_index e -> Done st' e) ->
+    forall r, In r (s_results st') <-> (In r R0 \/ exists e, in_index e /\ r = mkres e /\ less (edist e) L0 = true).
+  Proof.
+    intros K (S & _ & LN & _) Inc Dn r. split; [apply S|].
+    intros [H|(e & Pe & -> & L)]; [apply Inc; exact H|].
+    destruct (Dn e Pe) as [N|F]; [|exact F]. rewrite (LN K) in N. congruence.
+  Qed.
+
+  Lemma truncate_k1 l : o_max_results o = 1 -> truncate D o l = firstn 1 l.
+  Proof.
+    intros K. unfold truncate. rewrite K. destruct l as [|a [|b l']]; [reflexivity|reflexivity|].
+    assert (E : (Z.of_nat (length (a :: b :: l')) >? 1) = true) by (apply Z.gtb_lt; cbn [length]; lia).
+    rewrite E. reflexivity.
+  Qed.
+
+  Lemma k1_head L0 P s : o_max_results o = 1 -> EI [] L0 P s -> s_results s <> [] ->
+    exists hd tl, sort_unique ops (rev (s_results s)) = hd :: tl /\ r_dist hd = s_limit s.
+  Proof.
+    intros K (_ & _ & _ & L1) NE. destruct (L1 K eq_refl) as (B & _ & Ex).
+    destruct (Ex NE) as (rs & Hrs & Ers).
+    pose proof (sort_unique_sorted D ops OK (rev (s_results s))) as S.
+    assert (Mem : forall c, In c (sort_unique ops (rev (s_results s))) <-> In c (s_results s)).
+    { intros c. rewrite (sort_unique_in D ops OK). rewrite <- in_rev. tauto. }
+    destruct (sort_unique ops (rev (s_results s))) as [|hd tl] eqn:E.
+    { exfalso. apply (Mem rs). exact Hrs. }
+    exists hd, tl. split; [reflexivity|].
+    assert (Hhd : less (r_dist hd) (s_limit s) = false) by (apply B, Mem; left; reflexivity).
+    destruct (proj2 (Mem rs) Hrs) as [<-|Htl]; [exact Ers|].
+    inversion S as [|? ? _ F]; subst. rewrite Forall_forall in F. specialize (F rs Htl).
+    unfold rlt, r_less in F. destruct (d_eqb ops (r_dist hd) (r_dist rs)) eqn:Ed; cbn [negb] in F.
+    - apply (eqb_spec _ OK) in Ed. congruence.
+    - rewrite Ers in F. congruence.
+  Qed.
+
+  Lemma no_elements {A} (l : list A) : (forall a, ~ In a l) -> l = [].
+  Proof. destruct l as [|a l]; [reflexivity|]. intros H. exfalso. apply (H a). left. reflexivity. Qed.
+
+  Theorem opt_eq_brute_core cons avoid st :
+    s_queue st = [] -> s_tested st = [] ->
+    let so := find_edges_optimized D ops o t x false brk cons avoid st in
+    let sb := find_edges_brute D ops o t x false st in
+    s_queue so = [] ->
+    (o_max_results o <> 1 ->
+       sort_unique ops (rev (s_results so)) = sort_unique ops (rev (s_results sb))) /\
+    (o_max_results o = 1 -> s_results st = [] ->
+       map r_dist (truncate D o (sort_unique ops (rev (s_results so)))) =
+       map r_dist (truncate D o (sort_unique ops (rev (s_results sb))))) /\
+    (forall r, In r (s_results so) -> In r (s_results st) \/
+       exists e, In e (all_edges x) /\ r = mkres e /\ less (edist e) (s_limit st) = true).
+  Proof.
+    intros Eq Et. cbn. intros Efin.
+    assert (T0 : TestedOK st) by (intros e He; rewrite Et in He; contradiction).
+    set (R0 := s_results st). set (L0 := s_limit st).
+    destruct (opt_spec (EI R0 L0 in_index) (fun a s e Pe H => EI_madd R0 L0 in_index a s e Pe H)
+                (fun s q H => H) cons avoid st Eq T0 (EI_init in_index st) Efin) as (EIo & Dno & _ & Inco).
+    destruct (brute_spec R0 L0 st T0 (EI_init _ st)) as (EIb & Dnb & Xb).
+    cbn in EIb, Dnb, Xb.
+    set (so := find_edges_optimized D ops o t x false brk cons avoid st) in *.
+    set (sb := find_edges_brute D ops o t x false st) in *.
+    assert (EIb' : EI R0 L0 in_index sb) by (eapply EI_weaken; [|exact EIb]; intros e He; apply IndexOK; exact He).
+    assert (Dnb' : forall e, in_index e -> Done sb e) by (intros e He; apply Dnb, IndexOK; exact He).
+    split; [|split].
+    - intros K. apply (sorted_set_eq D ops OK); try apply (sort_unique_sorted D ops OK).
+      intros c. rewrite !(sort_unique_in D ops OK), <- !in_rev.
+      rewrite (final_set R0 L0 so K EIo Inco Dno), (final_set R0 L0 sb K EIb' (proj1 (proj2 Xb)) Dnb'). tauto.
+    - intros K R0nil. rewrite !(truncate_k1 _ K).
+      assert (R0e : R0 = []) by exact R0nil. rewrite R0e in *.
+      destruct (s_results so) as [|ro lo] eqn:Ero; destruct (s_results sb) as [|rb lb] eqn:Erb.
+      + reflexivity.
+      + (* optimized found nothing: no index edge is better than L0, so brute force finds nothing either *)
+        exfalso. destruct EIo as (_ & _ & _ & L1o). destruct (L1o K eq_refl) as (_ & Lo & _).
+        destruct EIb' as (Sb & _). destruct (Sb rb) as [[]|(e & Pe & _ & Le)]; [rewrite Erb; left; reflexivity|].
+        destruct (Dno e Pe) as [N|F]; [rewrite (Lo Ero) in N; congruence|].
+        unfold Found in F. rewrite Ero in F. contradiction.
+      + exfalso. destruct EIb' as (_ & _ & _ & L1b). destruct (L1b K eq_refl) as (_ & Lb & _).
+        destruct EIo as (So & _). destruct (So ro) as [[]|(e & Pe & _ & Le)]; [rewrite Ero; left; reflexivity|].
+        destruct (Dnb' e Pe) as [N|F]; [rewrite (Lb Erb) in N; congruence|].
+        unfold Found in F. rewrite Erb in F. contradiction.
+      + assert (NEo : s_results so <> []) by (rewrite Ero; discriminate).
+        assert (NEb : s_results sb <> []) by (rewrite Erb; discriminate).
+        destruct (k1_head L0 in_index so K EIo NEo) as (ho & tlo & Eho & Mo).
+        destruct (k1_head L0 in_index sb K EIb' NEb) as (hb & tlb & Ehb & Mb).
+        rewrite Ero in Eho. rewrite Erb in Ehb. rewrite Eho, Ehb. cbn. f_equal. rewrite Mo, Mb.
+        (* both limits are the minimum over the index edges *)
+        destruct EIo as (So & _ & _ & L1o). destruct EIb' as (Sb & _ & _ & L1b).
+        destruct (L1o K eq_refl) as (Bo & _ & Exo). destruct (L1b K eq_refl) as (Bb & _ & Exb).
+        destruct (Exo NEo) as (r1 & Hr1 & Er1). destruct (Exb NEb) as (r2 & Hr2 & Er2).
+        destruct (So r1 Hr1) as [[]|(e1 & P1 & -> & _)]. destruct (Sb r2 Hr2) as [[]|(e2 & P2 & -> & _)].
+        cbn in Er1, Er2.
+        apply (le_antisym _ _ OK).
+        * (* limit sb <= limit so *)
+          rewrite <- Er1. destruct (Dnb' e1 P1) as [N|F]; [exact N|]. apply (Bb _ F).
+        * rewrite <- Er2. destruct (Dno e2 P2) as [N|F]; [exact N|]. apply (Bo _ F).
+    - intros r Hr. destruct EIo as (So & _). destruct (So r Hr) as [H|(e & Pe & E & L)]; [left; exact H|].
+      right. exists e. split; [apply IndexOK; exact Pe|split; assumption].
+  Qed.
 End Opt.
